@@ -226,6 +226,11 @@ pub trait Family: Sized {
     fn api_name(api: Api) -> String {
         api.name().to_string()
     }
+    /// the node's container layout ends with an empty container (used only to recognise the
+    /// known finding `trailing-empty-container`, never by the strict reference)
+    fn trailing_empty(_kind: &str, _nkids: usize) -> bool {
+        false
+    }
 }
 
 pub fn leaf_spec<F: Family>(id: u32) -> RNode {
@@ -405,6 +410,8 @@ struct Machine<'a, F: Family> {
     root: RNode,
     dec: &'a [Dec],
     mutating: bool,
+    /// `exists` takes a predicate: true = Stop, false = Continue (no Jump)
+    predicate: bool,
     calls: Vec<ExpCall>,
     transformed: bool,
     next_fresh: u32,
@@ -416,7 +423,10 @@ impl<F: Family> Machine<'_, F> {
     fn call(&mut self, path: &[usize], phase: Phase) -> Rec {
         let node = self.root.get(path);
         let d = dec_for(self.dec, node.id);
-        let step = if phase == Phase::Down { d.down } else { d.up };
+        let mut step = if phase == Phase::Down { d.down } else { d.up };
+        if self.predicate && step.rec == Rec::J {
+            step.rec = Rec::C;
+        }
         let mut chg = if self.mutating { step.chg } else { Chg::None };
         if chg == Chg::Wrap && phase == Phase::Down {
             chg = Chg::Fresh; // wrapping top-down would re-enter the wrapped node for ever
@@ -470,7 +480,14 @@ impl<F: Family> Machine<'_, F> {
 }
 
 pub fn reference<F: Family>(tree: &RNode, api: Api, dec: &[Dec]) -> RefOut {
-    let mut m: Machine<F> = Machine { root: tree.clone(), dec, mutating: api.mutating(), calls: vec![], transformed: false, next_fresh: FRESH_BASE, _f: PhantomData };
+    reference_mode::<F>(tree, api, dec, false)
+}
+
+/// `deviation = true` models the behaviour recorded as known finding `trailing-empty-container`
+/// (a Jump returned for the last child is forgotten when the node's container layout ends with an
+/// empty container). It is used ONLY to decide whether a case falls under that open finding.
+pub fn reference_mode<F: Family>(tree: &RNode, api: Api, dec: &[Dec], deviation: bool) -> RefOut {
+    let mut m: Machine<F> = Machine { root: tree.clone(), dec, mutating: api.mutating(), predicate: api == Api::Exists, calls: vec![], transformed: false, next_fresh: FRESH_BASE, _f: PhantomData };
     if api.one_level() {
         let mut last = Rec::C;
         for i in m.root.traversal() {
@@ -478,6 +495,9 @@ pub fn reference<F: Family>(tree: &RNode, api: Api, dec: &[Dec]) -> RefOut {
             if last == Rec::S {
                 break;
             }
+        }
+        if deviation && last == Rec::J && F::trailing_empty(m.root.kind, m.root.kids.len()) {
+            last = Rec::C;
         }
         return RefOut { calls: m.calls, tree: m.root, transformed: m.transformed, rec: last };
     }
@@ -514,6 +534,12 @@ pub fn reference<F: Family>(tree: &RNode, api: Api, dec: &[Dec]) -> RefOut {
             continue;
         }
         let fr = stack.pop().unwrap();
+        if deviation && pending_jump && !fr.order.is_empty() {
+            let n = m.root.get(&fr.path);
+            if F::trailing_empty(n.kind, n.kids.len()) {
+                pending_jump = false;
+            }
+        }
         if up && !pending_jump {
             match m.call(&fr.path, Phase::Up) {
                 Rec::S => {
